@@ -341,13 +341,14 @@ Lemma lci_ae s gl a a' i x src t pi pt es mi :
   es = firstn (length es) (skipn (N.to_nat pi) (gl t)) ->
   (pi = 0 \/ term_at (gl t) (N.to_nat pi) = Some pt) ->
   (N.to_nat pi <= length (gl t))%nat ->
-  (pi = 0 \/ (pi <= llen (log (nd_of s i)) /\ term_at (log (nd_of s i)) (N.to_nat pi) = Some pt)) ->
+  (pi = 0 \/ (pi <= llen (log (nd_of s i)) /\ (term_at (log (nd_of s i)) (N.to_nat pi) = Some pt \/ pi <= base (nd_of s i)))) ->
   rl x = Follower -> term x = t -> term (nd_of s i) <= t ->
-  log x = append_entries es (log (nd_of s i)) ->
+  log x = append_entries (gap_refused ru) (base (nd_of s i)) es (log (nd_of s i)) ->
+  firstn (N.to_nat (base (nd_of s i))) (log (nd_of s i)) = firstn (N.to_nat (base (nd_of s i))) (gl t) ->
   mi = follower_ack ru pi (last_new pi es) (llen (log x)) ->
   LCI (upd_node s i x [(src, AER t true i mi)]) gl a'.
 Proof.
-  intros HR HI HM [A1 A2 A3 A4 A5 A6 A7 A8] Hi Hsrc HL Hld Hseg Hprev Hplen Hok Hrl Hterm Hge Hlog Hmi.
+  intros HR HI HM [A1 A2 A3 A4 A5 A6 A7 A8] Hi Hsrc HL Hld Hseg Hprev Hplen Hok Hrl Hterm Hge Hlog Hcomp Hmi.
   set (out := [(src, AER t true i mi)]).
   assert (Nd : forall j, nd_of (upd_node s i x out) j = if N.eqb j i then x else nd_of s j)
     by (intros j; apply (nth_upd s a); assumption).
@@ -357,11 +358,14 @@ Proof.
   assert (Hp : (N.to_nat pi <= length A)%nat).
   { destruct Hok as [->|[Hle _]]; [cbn; lia|unfold llen in Hle; lia]. }
   assert (Hag : firstn (N.to_nat pi) A = firstn (N.to_nat pi) (gl t)).
-  { destruct Hok as [->|[_ Ht]]; [reflexivity|].
-    destruct Hprev as [->|Ht']; [reflexivity|].
-    eapply LM_agree; [apply (lm_L1 _ _ _ _ HM i)|apply (lm_L2 _ _ _ _ HM t)|exact Ht|exact Ht']. }
-  destruct (append_entries_LM gl es A (N.to_nat pi) (gl t) (lm_wi_log _ _ _ _ HM i) (lm_wi_gl _ _ _ _ HM t)
-              (lm_L1 _ _ _ _ HM i) (lm_L2 _ _ _ _ HM t) Hp Hag Hseg) as [_ [_ [Fv [Lv _]]]].
+  { destruct Hok as [->|[_ [Ht|Hb]]]; [reflexivity| |].
+    - destruct Hprev as [->|Ht']; [reflexivity|].
+      eapply LM_agree; [apply (lm_L1 _ _ _ _ HM i)|apply (lm_L2 _ _ _ _ HM t)|exact Ht|exact Ht'].
+    - replace (firstn (N.to_nat pi) A) with (firstn (N.to_nat pi) (firstn (N.to_nat (base (nd_of s i))) A))
+        by (rewrite firstn_firstn; f_equal; lia).
+      rewrite Hcomp, firstn_firstn. f_equal. lia. }
+  destruct (append_entries_LM gl (gap_refused ru) (base (nd_of s i)) es A (N.to_nat pi) (gl t) (lm_wi_log _ _ _ _ HM i) (lm_wi_gl _ _ _ _ HM t)
+              (lm_L1 _ _ _ _ HM i) (lm_L2 _ _ _ _ HM t) Hp Hag Hseg Hcomp) as [_ [_ [Fv [Lv _]]]].
   rewrite <- Hlog in Fv, Lv.
   destruct (last_new_seg (gl t) pi es (lm_wi_gl _ _ _ _ HM t) Hplen Hseg) as [Hsl Hln].
   assert (Hmi1 : (N.to_nat mi <= N.to_nat pi + length es)%nat).
@@ -402,14 +406,14 @@ Proof.
         pose proof (AckT _ _ Hold) as Ht0.
         destruct (A2 i t0 m Hi Hold) as [[Hpre Hlen]|He].
         -- destruct (N.eq_dec t0 t) as [->|Hnt].
-           ++ left. destruct (append_entries_keep gl es A (N.to_nat pi) (gl t) m (lm_wi_log _ _ _ _ HM i)
-                               (lm_wi_gl _ _ _ _ HM t) (lm_L1 _ _ _ _ HM i) (lm_L2 _ _ _ _ HM t) Hp Hag Hseg Hlen Hpre) as [K1' K2'].
+           ++ left. destruct (append_entries_keep gl (gap_refused ru) (base (nd_of s i)) es A (N.to_nat pi) (gl t) m (lm_wi_log _ _ _ _ HM i)
+                               (lm_wi_gl _ _ _ _ HM t) (lm_L1 _ _ _ _ HM i) (lm_L2 _ _ _ _ HM t) Hp Hag Hseg Hcomp Hlen Hpre) as [K1' K2'].
               rewrite <- Hlog in K1', K2'. split; assumption.
            ++ destruct (P_dec gl t0 m t) as [HP|HnP].
               ** left. unfold P in HP.
                  assert (Hpre' : firstn m A = firstn m (gl t)) by (rewrite HP; exact Hpre).
-                 destruct (append_entries_keep gl es A (N.to_nat pi) (gl t) m (lm_wi_log _ _ _ _ HM i)
-                               (lm_wi_gl _ _ _ _ HM t) (lm_L1 _ _ _ _ HM i) (lm_L2 _ _ _ _ HM t) Hp Hag Hseg Hlen Hpre') as [K1' K2'].
+                 destruct (append_entries_keep gl (gap_refused ru) (base (nd_of s i)) es A (N.to_nat pi) (gl t) m (lm_wi_log _ _ _ _ HM i)
+                               (lm_wi_gl _ _ _ _ HM t) (lm_L1 _ _ _ _ HM i) (lm_L2 _ _ _ _ HM t) Hp Hag Hseg Hcomp Hlen Hpre') as [K1' K2'].
                  rewrite <- Hlog in K1', K2'. split; [rewrite K2'; exact HP|exact K1'].
               ** right. exists t, src. repeat split; [lia|lia|apply HL; exact Hld|exact HnP].
         -- right. apply ExLe. eapply ExcLe_mono; [|exact He]. lia.
@@ -591,12 +595,12 @@ Lemma lci_propose s gl a a' i p :
   (forall pp, In pp (Vote.leaders a') <-> In pp (Vote.leaders a)) ->
   let nd := nd_of s i in
   let x := Node (term nd) (voted nd) (rl nd) (votes nd) (log nd ++ [E (term nd) (llen (log nd) + 1) p])
-                (commit nd) (in_prevote nd) (prevotes nd) (lvs nd) in
+                (commit nd) (in_prevote nd) (prevotes nd) (lvs nd) (fin nd) (base nd) in
   LCI (upd_node s i x []) (gl_set gl (term nd) (log x)) a'.
 Proof.
   intros HR HI HM [A1 A2 A3 A4 A5 A6 A7 A8] Hi Hl HL nd x. subst x. subst nd.
   set (nd := nd_of s i) in *. set (t := term nd) in *. set (e := E t (llen (log nd) + 1) p) in *.
-  set (x := Node t (voted nd) (rl nd) (votes nd) (log nd ++ [e]) (commit nd) (in_prevote nd) (prevotes nd) (lvs nd)).
+  set (x := Node t (voted nd) (rl nd) (votes nd) (log nd ++ [e]) (commit nd) (in_prevote nd) (prevotes nd) (lvs nd) (fin nd) (base nd)).
   set (gl' := gl_set gl t (log nd ++ [e])).
   change (LCI (upd_node s i x []) gl' a').
   assert (Nd : forall j, nd_of (upd_node s i x []) j = if N.eqb j i then x else nd_of s j)
@@ -732,11 +736,20 @@ Qed.
 (* ---------------- the full invariant and its preservation ---------------- *)
 (* the follower's prev-entry test accepts only a matching term *)
 Hypothesis prev_sound : forall xt pt, prev_ok ru xt pt = true -> xt = pt.
+(* the leader sends entries only together with a prev entry that is still in its log *)
+Hypothesis need_prev : entries_need_prev ru = true.
 (* a vote is granted only to a candidate whose log is at least as up to date *)
 Hypothesis vote_sound : forall lli llt mli mlt g, vote_log_ok ru lli llt mli mlt g = true ->
   N.ltb mlt llt || (N.eqb llt mlt && N.ltb mli lli) || (N.eqb llt mlt && N.eqb lli mli) = true.
 
 
+
+(* every node's compacted prefix agrees with the ledger of every leader whose AppendEntries it may still accept
+   (derived from the commit invariant in Safety.v; a premise of the step theorem here) *)
+Definition CompOK (s : sys) (gl : ledger) : Prop :=
+  forall src dst t ldr pi pt es lc, In (src, dst, AE t ldr pi pt es lc) (pool s) -> dst < n_nodes cfg ->
+    term (nd_of s dst) <= t ->
+    firstn (N.to_nat (base (nd_of s dst))) (log (nd_of s dst)) = firstn (N.to_nat (base (nd_of s dst))) (gl t).
 
 (* B is a set of (term, leader) pairs already known to the ghost; it lets a caller follow one ghost
    state through a step (Safety.v) *)
@@ -815,13 +828,14 @@ Qed.
 Lemma fi_ae s gl o i x src t pi pt es mi lc ldr :
   FI s gl -> fst (gstep cfg ru s o) = upd_node s i x [(src, AER t true i mi)] -> i < n_nodes cfg ->
   In (src, i, AE t ldr pi pt es lc) (pool s) ->
-  (pi = 0 \/ (pi <= llen (log (nd_of s i)) /\ term_at (log (nd_of s i)) (N.to_nat pi) = Some pt)) ->
+  (pi = 0 \/ (pi <= llen (log (nd_of s i)) /\ (term_at (log (nd_of s i)) (N.to_nat pi) = Some pt \/ pi <= base (nd_of s i)))) ->
   rl x = Follower -> term x = t -> term (nd_of s i) <= t ->
-  log x = append_entries es (log (nd_of s i)) ->
+  log x = append_entries (gap_refused ru) (base (nd_of s i)) es (log (nd_of s i)) ->
+  firstn (N.to_nat (base (nd_of s i))) (log (nd_of s i)) = firstn (N.to_nat (base (nd_of s i))) (gl t) ->
   mi = follower_ack ru pi (last_new pi es) (llen (log x)) ->
   FI (upd_node s i x [(src, AER t true i mi)]) gl.
 Proof.
-  intros [a [HR [HI [H8 [HM [HC HB]]]]]] E Hi Hin Hok Hrl Hterm Hge Hlog Hmi.
+  intros [a [HR [HI [H8 [HM [HC HB]]]]]] E Hi Hin Hok Hrl Hterm Hge Hlog Hcomp Hmi.
   destruct (sim_step cfg ru quorum_ok s a o HR) as [a' [S01 HR']]. rewrite E in HR'.
   destruct (lm_M1 _ _ _ _ HM _ _ _ _ _ _ _ _ Hin) as [Hld [M1 [M2 M3]]].
   pose proof (c_ae_src _ _ _ HC _ _ _ _ _ _ _ _ Hin) as Hsd.
@@ -830,7 +844,7 @@ Proof.
     rewrite (nth_upd s a) in Hl by assumption. destruct (N.eqb_spec j i) as [->|]; congruence. }
   exists a'. split; [exact HR'|]. split; [eapply (inv_step01 cfg quorum_ok); eauto|].
   split; [eapply inv8_step01; eauto|]. split.
-  - eapply (lmi_ae cfg quorum_ok); eauto. intros d t0 ldr0 pi0 pt0 es0 lc0 [Eq|[]]. discriminate.
+  - eapply (lmi_ae cfg ru quorum_ok); eauto. intros d t0 ldr0 pi0 pt0 es0 lc0 [Eq|[]]. discriminate.
   - split; [eapply lci_ae; eauto|intros p0 Hp0; apply HLs, HB, Hp0].
 Qed.
 
@@ -838,7 +852,7 @@ Lemma fi_propose s gl o i p :
   FI s gl -> i < n_nodes cfg -> rl (nd_of s i) = Leader ->
   let nd := nd_of s i in
   let x := Node (term nd) (voted nd) (rl nd) (votes nd) (log nd ++ [E (term nd) (llen (log nd) + 1) p])
-                (commit nd) (in_prevote nd) (prevotes nd) (lvs nd) in
+                (commit nd) (in_prevote nd) (prevotes nd) (lvs nd) (fin nd) (base nd) in
   fst (gstep cfg ru s o) = upd_node s i x [] ->
   FI (upd_node s i x []) (gl_set gl (term nd) (log x)).
 Proof.
@@ -894,12 +908,12 @@ Lemma T1_cand s gl a i x :
   forall e, In e (log x) -> eterm e < term x.
 Proof. intros HM Hl Ht e He. rewrite Hl in He. pose proof (lm_T1 _ _ _ _ HM i e He). lia. Qed.
 
-Theorem fi_step : forall s gl o, FI s gl -> exists gl', FI (fst (gstep cfg ru s o)) gl' /\ gl_ext gl gl'.
+Theorem fi_step : forall s gl o, FI s gl -> CompOK s gl -> exists gl', FI (fst (gstep cfg ru s o)) gl' /\ gl_ext gl gl'.
 Proof.
-  intros s gl o HF.
+  intros s gl o HF HCO.
   assert (Stay : exists gl', FI s gl' /\ gl_ext gl gl') by (exists gl; split; [exact HF|apply gl_ext_refl]).
   pose proof HF as [a0 [HR0 [HI0 [H80 [HM0 [HC0 HB0]]]]]].
-  destruct o as [i|i|i|i|i p ok|k ok|i|i ok]; cbn [gstep].
+  destruct o as [i|i|i|i|i p ok|k ok|i|i ok|i h|i]; cbn [gstep].
   - (* GElect *)
     unfold valid_id. destruct (N.ltb_spec i (n_nodes cfg)) as [Hi|]; cbn [fst]; [|exact Stay].
     exists gl. split; [|apply gl_ext_refl]. eapply (fi_frame s gl (GElect i)); eauto.
@@ -942,11 +956,11 @@ Proof.
       * intros d u voter Hin. destruct (rv_msgs_ok cfg quorum_ok _ _ _ _ Hin) as [_ [? [? E]]]. discriminate.
   - (* GHeartbeat *)
     unfold valid_id. destruct (N.ltb_spec i (n_nodes cfg)) as [Hi|]; cbn [fst]; [|exact Stay].
-    assert (Hhb : forall d m0, In (d, m0) (heartbeat_msgs cfg i (nd_of s i)) ->
+    assert (Hhb : forall d m0, In (d, m0) (heartbeat_msgs cfg ru i (nd_of s i)) ->
               rl (nd_of s i) = Leader /\ In d (peers_of cfg i) /\
-              exists pi pt es, entries_for (nd_of s i) d = (pi, pt, es) /\ m0 = AE (term (nd_of s i)) i pi pt es (commit (nd_of s i))).
+              exists pi pt es, entries_for ru (nd_of s i) d = (pi, pt, es) /\ m0 = AE (term (nd_of s i)) i pi pt es (commit (nd_of s i))).
     { intros d m0 Hin. unfold heartbeat_msgs in Hin. destruct (rl (nd_of s i)) eqn:Er; try contradiction.
-      apply in_map_iff in Hin. destruct Hin as [pp [E Hp]]. destruct (entries_for (nd_of s i) pp) as [[pi0 pt0] es0] eqn:Ee.
+      apply in_map_iff in Hin. destruct Hin as [pp [E Hp]]. destruct (entries_for ru (nd_of s i) pp) as [[pi0 pt0] es0] eqn:Ee.
       injection E as <- <-. split; [reflexivity|]. split; [exact Hp|]. eauto. }
     exists gl. split; [|apply gl_ext_refl]. eapply (fi_frame s gl (GHeartbeat i)); eauto.
     + cbn [gstep]. unfold valid_id. destruct (N.ltb_spec i (n_nodes cfg)); [reflexivity|lia].
@@ -956,7 +970,7 @@ Proof.
     + intros a HR HI HM HC. constructor.
       * intros d t ldr pi pt es lc Hin. destruct (Hhb _ _ Hin) as [Er [Hp [pi0 [pt0 [es0 [Ee E]]]]]].
         injection E as E1 E2 E3 E4 E5 E6. subst t ldr pi pt es lc.
-        pose proof (entries_for_ok cfg quorum_ok (nd_of s i) d (lm_wi_log _ _ _ _ HM i)) as Hok. rewrite Ee in Hok.
+        pose proof (entries_for_ok cfg ru quorum_ok need_prev (nd_of s i) d (lm_wi_log _ _ _ _ HM i)) as Hok. rewrite Ee in Hok.
         destruct (peers_valid cfg quorum_ok i d Hp) as [_ Hne]. split; [congruence|].
         rewrite <- (lm_L3 _ _ _ _ HM i Hi Er). split; [|exact Hok].
         pose proof (Vote.I7 _ _ _ HI (N.to_nat i)) as G. rewrite (R_nodes _ _ _ HR i Hi) in G. cbn in G.
@@ -1066,16 +1080,27 @@ Proof.
       destruct (N.eqb_spec t (term nd1)) as [Et|Hne].
       * match goal with |- context [if (if N.eqb pi 0 then true else ?rest) then _ else _] =>
           destruct (if N.eqb pi 0 then true else rest) eqn:Elok end.
-        -- rewrite <- Et in *. exists gl. split; [|apply gl_ext_refl]. eapply (fi_ae s gl (GDeliver k ok) dst _ src t pi pt es _ lc ldr); eauto.
-           all: try (cbn [log]; rewrite Hl1; reflexivity).
+        -- rewrite <- Et in *.
+           assert (Hb1 : base nd1 = base nd) by (unfold nd1; destruct (N.ltb (term nd) t); reflexivity).
+           assert (Hok : pi = 0 \/ (pi <= llen (log (nd_of s dst)) /\
+                           (term_at (log (nd_of s dst)) (N.to_nat pi) = Some pt \/ pi <= base (nd_of s dst)))).
+           { rewrite Hl1, Hb1 in Elok. unfold nd in *. destruct (N.eqb_spec pi 0) as [->|Hpi]; [left; reflexivity|right].
+             destruct (N.leb_spec pi (llen (log (nd_of s dst)))) as [Hle|]; [|discriminate]. split; [exact Hle|].
+             unfold lookup in Elok. destruct (N.leb_spec pi (base (nd_of s dst))) as [Hcb|Hncb]; [right; exact Hcb|left].
+             rewrite nth_entry_ent_at in Elok. unfold term_at.
+             destruct (ent_at (log (nd_of s dst)) (N.to_nat pi)) as [x0|] eqn:Ex.
+             - apply prev_sound in Elok. cbn. congruence.
+             - exfalso. unfold ent_at in Ex. destruct (N.to_nat pi) as [|kk] eqn:Ekk; [lia|].
+               apply nth_error_None in Ex. unfold llen in Hle. lia. }
+           destruct (lm_M1 _ _ _ _ HM0 _ _ _ _ _ _ _ _ Hin) as [_ [Hseg0 [_ Hplen0]]].
+           assert (Hsucc : append_ok (gap_refused ru) (base nd1) es (log nd1) = true).
+           { rewrite Hl1. apply (append_ok_seg (gap_refused ru) (base nd1) es (log nd) (N.to_nat pi) (gl t)); [apply (lm_wi_gl _ _ _ _ HM0)| |exact Hseg0].
+             unfold nd in *. destruct Hok as [->|[Hle _]]; [cbn; lia|unfold llen in Hle; lia]. }
+           rewrite Hsucc in *.
+           exists gl. split; [|apply gl_ext_refl]. eapply (fi_ae s gl (GDeliver k ok) dst _ src t pi pt es _ lc ldr); eauto.
+           all: try (cbn [log]; rewrite Hl1, ?Hb1; reflexivity).
            all: try (unfold nd in *; exact Ht1).
-           rewrite Hl1 in Elok. unfold nd in *. destruct (N.eqb_spec pi 0) as [->|Hpi]; [left; reflexivity|right].
-           destruct (N.leb_spec pi (llen (log (nd_of s dst)))) as [Hle|]; [|discriminate]. split; [exact Hle|].
-           rewrite nth_entry_ent_at in Elok. unfold term_at.
-           destruct (ent_at (log (nd_of s dst)) (N.to_nat pi)) as [x0|] eqn:Ex.
-           ++ apply prev_sound in Elok. cbn. congruence.
-           ++ exfalso. unfold ent_at in Ex. destruct (N.to_nat pi) as [|kk] eqn:Ekk; [lia|].
-              apply nth_error_None in Ex. unfold llen in Hle. lia.
+           all: try (unfold nd in *; eapply HCO; eauto; fail).
         -- exists gl. split; [|apply gl_ext_refl]. eapply (fi_frame s gl (GDeliver k ok)); eauto.
            ++ apply K1_follower; cbn; auto.
            ++ cbn. discriminate.
@@ -1109,6 +1134,23 @@ Proof.
     + cbn [gstep]. unfold valid_id. destruct (N.ltb_spec i (n_nodes cfg)); [reflexivity|lia].
     + apply (K1_elect cfg quorum_ok).
     + intros _. apply (T1_cand s gl a0 i); auto. cbn. lia.
+  - (* GFinalize *)
+    unfold valid_id. destruct (N.ltb_spec i (n_nodes cfg)) as [Hi|]; cbn [fst]; [|exact Stay].
+    exists gl. split; [|apply gl_ext_refl]. eapply (fi_frame s gl (GFinalize i h)); eauto.
+    all: try (intros ? ? ? ? []; fail).
+    all: try (intros; apply OutOk_nil; fail).
+    + cbn [gstep]. unfold valid_id. destruct (N.ltb_spec i (n_nodes cfg)); [reflexivity|lia].
+    + unfold finalize. destruct (N.leb h (commit (nd_of s i))); [apply (K1_same cfg quorum_ok); reflexivity|apply (K1_refl cfg quorum_ok)].
+    + unfold finalize. destruct (N.leb h (commit (nd_of s i))); cbn [rl log term]; apply (c_cand _ _ _ HC0 i Hi).
+  - (* GCompact *)
+    unfold valid_id. destruct (N.ltb_spec i (n_nodes cfg)) as [Hi|]; cbn [fst]; [|exact Stay].
+    exists gl. split; [|apply gl_ext_refl]. eapply (fi_frame s gl (GCompact i)); eauto.
+    all: try (intros ? ? ? ? []; fail).
+    all: try (intros; apply OutOk_nil; fail).
+    + cbn [gstep]. unfold valid_id. destruct (N.ltb_spec i (n_nodes cfg)); [reflexivity|lia].
+    + unfold compact. match goal with |- context [if ?c then _ else _] => destruct c end;
+        [apply (K1_same cfg quorum_ok); reflexivity|apply (K1_refl cfg quorum_ok)].
+    + unfold compact. match goal with |- context [if ?c then _ else _] => destruct c end; cbn [rl log term]; apply (c_cand _ _ _ HC0 i Hi).
 Qed.
 End WithBase.
 
@@ -1133,35 +1175,6 @@ Proof.
   split; [|split; [apply LCI_init|intros ? []]].
   constructor; intros; try rewrite (init_node_of cfg) in *; cbn in *;
     try apply WI_nil; try apply LM_nil; try contradiction; try discriminate; try congruence.
-Qed.
-
-Theorem fi_run : forall ops, exists gl, FI (grun cfg ru ops) gl.
-Proof.
-  intros ops. unfold grun.
-  assert (G : forall ops s gl, FI s gl -> exists gl', FI (fold_left (fun s o => fst (gstep cfg ru s o)) ops s) gl').
-  { induction ops0 as [|o ops0 IH]; intros s gl H; cbn [fold_left]; [eauto|].
-    destruct (fi_step [] s gl o H) as [gl1 [H1 _]]. eapply IH; eauto. }
-  eapply G. apply FI_init.
-Qed.
-
-(* LEADER COMPLETENESS for every reachable state: whenever a quorum has acknowledged position m of the
-   ledger of term t (an entry created in term t), every node that is leader of a later term holds the
-   first m entries of that ledger. *)
-Theorem leader_completeness : forall ops,
-  let s := grun cfg ru ops in
-  exists gl a, LMI cfg s gl a /\ LCI s gl a /\
-    forall t m, QA s gl a t m ->
-      forall c, c < n_nodes cfg -> rl (nd_of s c) = Leader -> t < term (nd_of s c) ->
-        firstn m (log (nd_of s c)) = firstn m (gl t).
-Proof.
-  intros ops s. destruct (fi_run ops) as [gl [a [HR [HI [H8 [HM [HC _]]]]]]]. fold s in HR, HM, HC.
-  exists gl, a. split; [exact HM|]. split; [exact HC|].
-  intros t m HQ c Hc Hl Ht.
-  assert (Hld : Ld a (term (nd_of s c)) c).
-  { pose proof (Vote.I7 _ _ _ HI (N.to_nat c)) as G. rewrite (R_nodes _ _ _ HR c Hc) in G. cbn in G.
-    rewrite Hl in G. apply G. reflexivity. }
-  rewrite (lm_L3 _ _ _ _ HM c Hc Hl).
-  apply (leader_completeness_inv s gl a HC t m HQ _ c Hld Ht).
 Qed.
 
 End Commit.
